@@ -51,6 +51,24 @@ CHECKS = {
  "C10": ("RunnerLab", "fault-injection PBT: panics with String/&str/custom/i32 payloads and World::new errors at generated positions; token accounting + panic-hook probe",
          "Every injected fault is reported exactly once with its payload, attempts complete, nothing escapes the stream, the panic hook is silent during and restored after the run.",
          "'prints nothing' is observed through a probe panic hook, not by capturing stderr.", "6/C10"),
+ "C15": ("FuncLab", "PBT with reference evaluator: generated tagged feature sets x (--name regex, --tags AST, closure) presence combinations through Cucumber::custom(VecParser, RecordingRunner).filter_run; expected feature list computed independently and compared with gherkin::Feature equality; TagOperation::eval and the textual tag-expression parser vs a reference boolean evaluator",
+         "The runner receives exactly the features with exactly the accepted scenarios in order and everything else intact, for generated tags on all levels and all eight combinations of the three filter sources; the boolean evaluator agrees with a reference on random formulas.",
+         "Closures are drawn from a small family (line residue classes).", "6/C15"),
+ "C16": ("FuncLab", "differential PBT: grammar-generated .feature files on disk through parser::Basic vs single-pass reference substitution over the gherkin crate's own unexpanded parse",
+         "One scenario per data row, in order and place, with names / step texts / doc strings / table cells substituted, tags appended, distinct positions, and exactly one error naming an unknown placeholder, for generated outlines with hostile values and placeholder shapes.",
+         "Trusts the external gherkin crate's unexpanded parse; generator asserts it contains the outlines it wrote.", "6/C16"),
+ "C17": ("FuncLab", "differential PBT: step::Collection::find vs regex::Regex::{is_match, captures, capture_names} over grammar-generated definition sets registered in two permutations; chosen fn pointers invoked and identified",
+         "Keyword scoping, not-found / single / ambiguous verdicts, candidate list order, capture texts and names (empty for non-participating groups) and registration-order independence hold against the regex crate's own API for generated definitions and texts.",
+         "The regex crate's public matching API is the reference.", "6/C17"),
+ "C18": ("FuncLab+RunnerLab", "exhaustive enumeration of the 28 800-case tag x CLI product plus PBT over random tags / durations / filter ASTs against a reference resolver; CLI-over-builder merge observed on real runs (tags mode) through the C05/C06/C08 oracles",
+         "parse_from_tags equals the documented resolution on the complete product of tag forms, placements and CLI values and on random cases; merge of CLI and builder values is observed on generated real runs.",
+         "Undocumented retry-prefixed tags only must not panic (R7).", "6/C18"),
+ "C19": ("FuncLab", "PBT over step texts against a compiled zoo of 30 attribute/function pairs with hand-written reference matchers and argument decoders; inventory counted per keyword",
+         "Registration (count per keyword, reachability), literal / regex / expr matching as written, typed argument delivery in declaration order, slices, #[step] argument, custom Parameters, and failure on parse errors / returned Err hold for the zoo over generated and mutated texts.",
+         "The quantifier over programs is a fixed representative zoo (macro expansion is compile time).", "6/C19"),
+ "C20": ("vtrace", "PBT with token accounting: generated RunnerLab cases whose callbacks emit uniquely tokenised tracing events before and after gate awaits; real Cucumber::run with init_tracing() polled by hand in one child process per case under harness-chosen schedules",
+         "Every emitted log is delivered exactly once as a Log event of the emitting attempt, after the emitting step's / hook's Started and before its result, for generated concurrency, retries and schedules. Known finding D8 (after-hook logs precede the hook's Started event) reported as KNOWN-FINDING.",
+         "Quiescence in the tracing build = 48 polls without activity (the runner wakes itself every poll).", "6/C20"),
 }
 
 def entry(pid):
@@ -81,7 +99,8 @@ manifest = {
     "engines": [
         {"name": "RunnerLab", "path": "/verif/harness/src/lab", "serves_properties": [p for p in all_ids if p in CHECKS and "RunnerLab" in CHECKS[p][0]], "kind_free_text": "real runner::Basic polled by a hand-written executor; gates in user callbacks and parser stream; schedule is a generated input"},
         {"name": "StreamLab", "path": "/verif/harness/src/stream", "serves_properties": [p for p in all_ids if p in CHECKS and "StreamLab" in CHECKS[p][0]], "kind_free_text": "generated contract-abiding event streams fed to the real writers"},
-        {"name": "FuncLab", "path": "/verif/harness/src/func", "serves_properties": [p for p in all_ids if p in CHECKS and CHECKS[p][0] == "FuncLab"], "kind_free_text": "pure-function differential / reference-model checks"},
+        {"name": "vtrace", "path": "/verif/harness-tracing", "serves_properties": ["C20"], "kind_free_text": "RunnerLab driver over Cucumber::run with the tracing feature; one process per case"},
+        {"name": "FuncLab", "path": "/verif/harness/src/func", "serves_properties": [p for p in all_ids if p in CHECKS and "FuncLab" in CHECKS[p][0]], "kind_free_text": "pure-function differential / reference-model checks"},
     ],
     "checks": [entry(p) for p in all_ids if p in CHECKS],
     "not_applicable": [{"property_id": p, "reason": "check not built yet in this revision of /verif (planned, see DESIGN.md section 6)"} for p in all_ids if p not in CHECKS],
